@@ -14,8 +14,10 @@ from vlib.common import Broken, HARNESS, REPO, go_env
 TLC_JAVA_HEAP = "6g"
 
 
-def records(ctx, family, simulate=None, depth=None, seed=None, max_fields=None):
-    """Runs TLC on SchemaSem.tla for one family, returns (tlc result, list of records)."""
+def records(ctx, family, simulate=None, depth=None, seed=None, max_fields=None, limit=None):
+    """Runs TLC on SchemaSem.tla for one family, returns (tlc result, list of records).
+    In simulation mode TLC evaluates the emitting constraint on every successor it generates, not only on the states of the
+    walk: records are de-duplicated and, with limit, a seeded sample of that many is kept."""
     cfg = "SchemaSem_%s.cfg" % family
     extra = None
     if max_fields is not None:
@@ -32,9 +34,19 @@ def records(ctx, family, simulate=None, depth=None, seed=None, max_fields=None):
             raise Broken("SchemaSem/%s simulation failed: %s" % (family, r.out[-1500:]))
     else:
         tlc.require_ok(r, "SchemaSem/" + cfg)
-    recs = list(tlc.payload_lines(r.outfile))
+    recs = []
+    seen = set()
+    for rec in tlc.payload_lines(r.outfile):
+        key = json.dumps([rec["pkgs"], (rec.get("evolve") or {}).get("pkgs")], sort_keys=True)
+        if key not in seen:
+            seen.add(key)
+            recs.append(rec)
     if not recs:
         raise Broken("SchemaSem/%s produced no records" % family)
+    if limit and len(recs) > limit:
+        import random
+        rng = random.Random(int(seed or 0) * 7919 + len(recs))
+        recs = rng.sample(recs, limit)
     return r, recs
 
 
@@ -55,6 +67,10 @@ def render(tokens, case_id):
 
 
 def label(rec):
+    if rec.get("evolve_link"):
+        rec = dict(rec)
+        link = rec.pop("evolve_link")
+        return label(rec) + " -> version B by [" + ", ".join(link["edits"]) + "]"
     if rec["verdict"] == "reject":
         return "mutant %s at %s" % (rec["rule"], rec["name"])
     fs = []
@@ -93,6 +109,19 @@ class Pipeline:
 
     # ---- step 1: sources and the real compiler --------------------------------------------
     def add(self, recs):
+        # an evolve record (C16) carries two versions of the schema: version B becomes a case of its own, linked from A
+        flat = []
+        for rec in recs:
+            ev = rec.get("evolve") or {}
+            if ev.get("pkgs"):
+                b = {"verdict": "accept", "rule": "", "name": "", "shape": rec["shape"], "nfiles": 1, "svc": False,
+                     "pkgs": ev["pkgs"], "sem": ev["sem"], "names": rec["names"], "version_b_of": True}
+                rec["evolve_link"] = {"fields": ev["fields"], "runs": ev["runs"], "edits": ev["edits"], "b": b}
+                flat += [rec, b]
+            else:
+                flat.append(rec)
+            rec.pop("evolve", None)
+        recs = flat
         base = len(self.cases)
         for i, rec in enumerate(recs):
             cid = "c%05d" % (base + i)
@@ -225,12 +254,17 @@ class Pipeline:
         if p.returncode != 0:
             raise Broken("cannot build the driver of the generated code: %s" % (p.stdout + p.stderr)[-3000:])
         cases_file = os.path.join(self.root, "cases.ndjson")
+        okids = {c["id"] for c in ok}
         with open(cases_file, "w") as fh:
             for c in ok:
                 r = c["rec"]
-                fh.write(json.dumps({"id": c["id"], "label": r["label"], "pkgs": [
+                out = {"id": c["id"], "label": r["label"], "pkgs": [
                     {"id": p_["id"], "files": [{"name": f["name"], "ast": f["ast"]} for f in p_["files"]]} for p_ in r["pkgs"]],
-                    "names": r["names"], "sem": r["sem"]}) + "\n")
+                    "names": r["names"], "sem": r["sem"]}
+                link = r.get("evolve_link")
+                if link and link["b"].get("id") in okids:
+                    out["evolve"] = {"other": link["b"]["id"], "fields": link["fields"], "runs": link["runs"], "edits": link["edits"]}
+                fh.write(json.dumps(out) + "\n")
         p = subprocess.run([binp, cases_file], capture_output=True, text=True, timeout=3000)
         if p.returncode != 0:
             raise Broken("driver of the generated code failed: %s" % (p.stdout + p.stderr)[-3000:])
